@@ -496,9 +496,13 @@ def _script_half(plan, ops, symbols, probe, trace):
     nontrivial = False
     # ---- text rendering (own printer)
     lines = ["(set-logic QF_BV)"]
-    for n, s in symbols.items():
-        lines.append("(declare-fun %s () %s)" % (bp.smt_symbol(n), bp.smt_sort(s)))
+    for j, (n, s) in enumerate(symbols.items()):
+        if j % 3 == 1:
+            lines.append("(declare-const %s %s)" % (bp.smt_symbol(n), bp.smt_sort(s)))
+        else:
+            lines.append("(declare-fun %s () %s)" % (bp.smt_symbol(n), bp.smt_sort(s)))
     direct = SmtLibScript()
+    built = {}
     sops = []
     for i, o in enumerate(ops):
         k = o["op"]
@@ -508,7 +512,21 @@ def _script_half(plan, ops, symbols, probe, trace):
         if k == "assert":
             f = bp.build(o["f"], env)
             direct.add(smtcmd.ASSERT, [f])
-            lines.append("(assert %s)" % bp.to_smtlib(o["f"]))
+            built[i] = f
+            # the same assertion in the spellings a script may use (deterministic in the op index)
+            ftxt = bp.to_smtlib(o["f"])
+            variant = (i * 7 + len(ftxt)) % 6
+            if variant == 1:
+                lines.append("(assert (! %s :named na%d))" % (ftxt, i))
+                probe("script_named_assert")
+            elif variant == 2:
+                lines.append("(define-fun df%d () Bool %s)" % (i, ftxt))
+                lines.append("(assert df%d)" % i)
+                probe("script_define_fun_assert")
+            elif variant == 3:
+                lines.append("(assert (let ((lv%d %s)) lv%d))" % (i, ftxt, i))
+            else:
+                lines.append("(assert %s)" % ftxt)
             model.assert_(i)
             model_p.assert_(i)
         elif k == "assert_soft":
@@ -582,15 +600,27 @@ def _script_half(plan, ops, symbols, probe, trace):
         nontrivial = True
         probe("soft_group_spans_frames")
 
-    for route, script in (("direct", direct), ("parsed", parsed)):
+    # third route: the directly built script written out by pySMT's own serialiser and read back
+    buf = StringIO()
+    api("script.serialize", lambda: direct.serialize(buf, daggify=bool(len(ops) % 2)))
+    decls = "".join(l + "\n" for l in lines if l.startswith(("(set-logic", "(declare-")))
+    reparsed = api("parser.get_script(serialised)",
+                   lambda: SmtLibParser(environment=env).get_script(StringIO(decls + buf.getvalue())))
+    for route, script in (("direct", direct), ("parsed", parsed), ("reprinted", reparsed)):
         # token -> objects of this route: the i-th script-expressible op is the
         # i-th non-declaration command of the script
         cmds = [c for c in script.commands
-                if c.name not in (smtcmd.SET_LOGIC, smtcmd.DECLARE_FUN, smtcmd.DECLARE_CONST)]
+                if c.name not in (smtcmd.SET_LOGIC, smtcmd.DECLARE_FUN, smtcmd.DECLARE_CONST, smtcmd.DEFINE_FUN)]
         if len(cmds) != len(sops):
             raise Violation("C16:script:%s:command-count" % route,
                             "script has %d commands for %d operations" % (len(cmds), len(sops)))
         cmd_of = {i: c for (i, _), c in zip(sops, cmds)}
+        for i, f in built.items():
+            # whatever the spelling (plain, named, through a definition, through a let), the command
+            # asserts the formula itself
+            if cmd_of[i].name != smtcmd.ASSERT or cmd_of[i].args[0] is not f:
+                raise Violation("C16:script:%s:assert-content" % route,
+                                "command %s %s for the assertion %s" % (cmd_of[i].name, cmd_of[i].args[0], f))
         got_f, got_goals = api("get_last_formula(%s)" % route,
                                lambda: script.get_last_formula(mgr=mgr, return_optimizations=True))
         want_f = mgr.And([cmd_of[i].args[0] for i in model.live_assertions()])
@@ -601,7 +631,7 @@ def _script_half(plan, ops, symbols, probe, trace):
         if plain is not want_f:
             raise Violation("C16:script:%s:last-formula-plain" % route,
                             "get_last_formula() = %s, live assertions = %s" % (plain, want_f))
-        want_goals = (model_p if route == "parsed" else model).live_goals()
+        want_goals = (model if route == "direct" else model_p).live_goals()
         if len(got_goals) != len(want_goals):
             raise Violation("C16:script:%s:goal-count" % route,
                             "script reports %d goals %s, model has %d" %
